@@ -212,12 +212,13 @@ class Arr:
 class AExpr:
     """a computed (immutable) array: shape + element function"""
 
-    __slots__ = ("shape", "fn", "dtype")
+    __slots__ = ("shape", "fn", "dtype", "term")
 
     def __init__(self, shape, fn, dtype="i64"):
         self.shape = list(shape)
         self.fn = fn
         self.dtype = dtype
+        self.term = None  # the z3 array term this is a snapshot of, when it is a whole array (old(A), pre(A), it0(A))
 
     @property
     def ndim(self):
